@@ -467,7 +467,7 @@ Definition p_fa_spec (inp : list byte) : list byte :=
     | SRec x => [115; 112; 101; 99; 32; 114; 101; 99; 32; 104; 61] ++ hex (fi_head x)     (* spec rec h= *)
                 ++ [32; 108; 61] ++ p_lines (Some (fi_lines x))
                 ++ [32; 64] ++ dec (fi_line x) ++ [58] ++ dec (fi_byte x) ++ NL
-    | SInvalidStart l f => [115; 112; 101; 99; 32] ++ p_fa_err (FaInvalidStart l f) ++ NL
+    | SInvalidStart l f => [115; 112; 101; 99; 32] ++ p_fa_err (FaInvalidStart l f) ++ [32; 64; 45] ++ NL
     end) (fa_spec inp)).
 
 Definition p_fq_serr (e : fq_serr) : list byte :=
@@ -484,7 +484,7 @@ Definition p_fq_spec (inp : list byte) : list byte :=
     | QRec x => [115; 112; 101; 99; 32; 114; 101; 99; 32; 104; 61] ++ hex (qi_head x)
                 ++ [32; 115; 61] ++ hex (qi_seq x) ++ [32; 113; 61] ++ hex (qi_qual x)
                 ++ [32; 64] ++ dec (qi_line x) ++ [58] ++ dec (qi_byte x) ++ NL
-    | QErr e => [115; 112; 101; 99; 32] ++ p_fq_serr e ++ NL
+    | QErr e l b => [115; 112; 101; 99; 32] ++ p_fq_serr e ++ [32; 64] ++ dec l ++ [58] ++ dec b ++ NL
     end) (fq_spec_all inp)).
 
 (** One reader case:
